@@ -533,7 +533,12 @@ CStep(cs0, ev) ==
        \* the round is not closed by it; the other subscribers are still owed their call
        [] k = "subapi"    -> [(IF ev.incb THEN cs ELSE Settle(cs)) EXCEPT !.subs = IF \E i \in 1..Len(@) : @[i].who = ev.who /\ @[i].target = ev.target /\ @[i].kind = ev.kind
                                                            THEN @ ELSE Append(@, [who |-> ev.who, target |-> ev.target, kind |-> ev.kind])]
-       [] k = "unsubapi"  -> [(IF ev.incb THEN cs ELSE Settle(cs)) EXCEPT !.subs = SelectSeq(@, LAMBDA x : ~(x.who = ev.who /\ x.target = ev.target /\ x.kind = ev.kind))]
+       [] k = "unsubapi"  -> LET c0   == IF ev.incb THEN cs ELSE Settle(cs)
+                                 left == SelectSeq(c0.subs, LAMBDA x : ~(x.who = ev.who /\ x.target = ev.target /\ x.kind = ev.kind))
+                                 \* a round that could not be closed yet (a stalled link): a callback that has
+                                 \* unsubscribed in the meantime is no longer owed its call
+                                 gone == ~\E i \in 1..Len(left) : left[i].who = ev.who
+                             IN [c0 EXCEPT !.subs = left, !.must = IF gone THEN @ \ {ev.who} ELSE @]
        [] k = "snapshot"  -> Snapshot(Settle(cs), ev)
        [] k = "quiesce"   -> Quiesce(cs)
        [] OTHER           -> cs
